@@ -76,9 +76,11 @@ def runEvalAll (objs : List Obj) : Sexp :=
 def selSx (s : Option Selector) : Sexp :=
   let s := s.getD ⟨[], []⟩
   let ml := s.matchLabels.mergeSort (fun a b => a.1 ≤ b.1)
-  .list [.atom "sel", .list (.atom "ml" :: ml.map fun (k, v) => .list [.atom k, .atom v]),
+  -- the empty label value travels as `~` (an empty atom would vanish from the line)
+  let tilde (v : String) : String := if v == "" then "~" else v
+  .list [.atom "sel", .list (.atom "ml" :: ml.map fun (k, v) => .list [.atom k, .atom (tilde v)]),
     .list (.atom "me" :: s.exprs.map fun r => .list ([.atom r.key, .atom (match r.op with
-      | .In => "In" | .NotIn => "NotIn" | .Exists => "Exists" | .DoesNotExist => "DoesNotExist")] ++ r.vals.map .atom))]
+      | .In => "In" | .NotIn => "NotIn" | .Exists => "Exists" | .DoesNotExist => "DoesNotExist")] ++ r.vals.map fun v => .atom (tilde v)))]
 
 def xEntrySx (x : Exposure.XEntry) : Sexp :=
   .list [.atom "ent", .atom (if x.entireCluster then "ALL" else "SEL"), selSx (if x.entireCluster then none else x.nsSel),
@@ -138,6 +140,12 @@ def runPair (args : List Sexp) : Sexp :=
   | id :: _ => .list [.atom "wpair", id, .atom "bad-case"]
   | _ => .atom "bad-case"
 
+/-- the ingress-controller entries in a canonical order: by the name of the destination workload.
+(In Go they come out of a map iteration, and every observable output sorts afterwards; the names
+are distinct, one entry per workload.) -/
+def sortIngress (ing : List Engine.Entry) : List Engine.Entry :=
+  ing.mergeSort (fun a b => a.dst.str ≤ b.dst.str)
+
 /-- the list analysis as the diff analyzer consumes it -/
 def listFor (objs : List Obj) : Except Err (List Engine.Entry × List Engine.LPeer) :=
   match Engine.build objs with
@@ -150,7 +158,7 @@ def listFor (objs : List Obj) : Except Err (List Engine.Entry × List Engine.LPe
       let entries ← eng.connsBetweenPeers peers ""
       -- the lines of the ingress controller are part of the report the diff compares
       let (ing, _) ← IngressA.ingressEntries eng objs owners ""
-      pure (entries ++ ing, peers)
+      pure (entries ++ sortIngress ing, peers)
 
 def b01 (b : Bool) : String := if b then "1" else "0"
 
